@@ -44,13 +44,15 @@ class BaseProp:
             self.clock_fired["reads"] += c.reads
 
     # ---- schedule exploration
-    def schedule_plan(self, run, case_seed, m_seeded, flip_n, extra_flips=4):
+    def schedule_plan(self, run, case_seed, m_seeded, flip_n, extra_flips=4, pair_n=6, site_n=6):
         """Call run(schedule) for lo, hi, alt, alt2, single flips, seeded and mixed schedules.
 
         `run` must return the number of draws the execution consumed.
         """
         n_lo = run(Schedule("lo", seed=derive(case_seed, "lo")))
+        sites_lo = self._sites_seen()
         n_hi = run(Schedule("hi", seed=derive(case_seed, "hi")))
+        sites_hi = self._sites_seen()
         if max(n_lo, n_hi) == 0:
             return
         run(Schedule("alt", seed=derive(case_seed, "alt")))
@@ -62,6 +64,21 @@ class BaseProp:
             run(Schedule("lo", seed=derive(case_seed, "flo", i), overrides={i: "hi"}))
         for i in range(min(n_hi, flip_n)):
             run(Schedule("hi", seed=derive(case_seed, "fhi", i), overrides={i: "lo"}))
+        # every pair of draws flipped, while the execution is small enough for that
+        if 2 <= n_lo <= pair_n:
+            for i in range(n_lo):
+                for j in range(i + 1, n_lo):
+                    run(Schedule("lo", seed=derive(case_seed, "plo", i, j), overrides={i: "hi", j: "hi"}))
+        if 2 <= n_hi <= pair_n:
+            for i in range(n_hi):
+                for j in range(i + 1, n_hi):
+                    run(Schedule("hi", seed=derive(case_seed, "phi", i, j), overrides={i: "lo", j: "lo"}))
+        # all draws of one site (or of one kind) flipped together: "every list maximal, every string minimal"
+        sites = sorted(set(sites_lo) | set(sites_hi))
+        if len(sites) >= 2:
+            for sname in sites[:site_n]:
+                run(Schedule("lo", seed=derive(case_seed, "slo", sname), sites={sname: "hi"}))
+                run(Schedule("hi", seed=derive(case_seed, "shi", sname), sites={sname: "lo"}))
         if extra_flips and (n_lo > flip_n or n_hi > flip_n):
             import random
             r = random.Random(derive(case_seed, "xflips"))
@@ -73,6 +90,19 @@ class BaseProp:
         for j in range(m_seeded):
             run(Schedule("rnd", seed=derive(case_seed, "rnd", j)))
             run(Schedule("mix", seed=derive(case_seed, "mix", j), p=(0.15, 0.4, 0.7)[j % 3]))
+
+    def _sites_seen(self):
+        log = self.world.log or ()
+        out = []
+        for e in log:
+            if e[1] in ("utcnow", "now", "today", "uuid4", "seed"):
+                continue
+            if e[5] not in out:
+                out.append(e[5])
+            k = "kind:" + e[1]
+            if k not in out:
+                out.append(k)
+        return out
 
     # ---- violations
     @staticmethod
@@ -138,7 +168,7 @@ class BaseProp:
 
 def simpler_policies(sched):
     """Strictly simpler schedules to try while shrinking: lo < hi < anything else (no ping-pong)."""
-    pol, ov = sched["policy"], sched.get("overrides")
+    pol, ov = sched["policy"], sched.get("overrides") or sched.get("sites")
     if pol == "lo" and not ov:
         return ()
     if pol == "hi" and not ov:
